@@ -96,3 +96,93 @@ func ZZ_C14_interf(a []int) {
 		zzViewEq(zzSnap(q3), sA, "a frame decodes differently depending on what was processed before")
 	}
 }
+
+// ZZ_C14_reuse: decoding into a packet that already holds data must not
+// write through the memory it held before. a[0] selects the scenario, a[1] =
+// length of the string/binary fields involved.
+//
+//	0: NewConnect() then UnmarshalBinary with an arbitrary protocol name of
+//	   up to four bytes: later NewConnect() packets still say "MQTT"
+//	1: a binary field of p1 (correlation data / auth data / password /
+//	   payload) is handed to p2 through its setter; p2.UnmarshalBinary must
+//	   leave p1 unchanged
+//	2: a CONNECT is decoded, its will is kept; decoding another body into the
+//	   same Connect must leave the will obtained earlier unchanged
+func ZZ_C14_reuse(a []int) {
+	l := a[1]
+	switch a[0] {
+	case 0:
+		var e zzEnc
+		e.str(zzBytes("pn", l))
+		e.u8(5)
+		e.u8(0)
+		e.u16(zzU16("ka"))
+		e.u8(0)
+		e.str(zzBytes("cid", 1))
+		q := NewConnect()
+		err := q.UnmarshalBinary(e.b)
+		zzReach("reuse")
+		zzEmitU("err", zzB2U(err != nil))
+		fresh := NewConnect()
+		zzAssert(zzBytesEq([]byte(fresh.ProtocolName()), []byte("MQTT")), "decoding into a NewConnect() packet changes the protocol name of later NewConnect() packets")
+		zzAssert(zzGlobalWrites() == 0, "monitor: package-level state is written while decoding")
+	case 1:
+		p1 := NewPublish()
+		p1.SetTopicName("t")
+		p1.SetCorrelationData(zzBytes("c1", l))
+		p1.SetPayload(zzBytes("pl1", l))
+		s1 := zzSnap(p1)
+		p2 := NewPublish()
+		p2.SetCorrelationData(p1.CorrelationData())
+		p2.SetPayload(p1.Payload())
+		abs := zzGen2(zzShape{typ: 3, slen: l, mask: 1 << 4, nz: 2}, "B.")
+		err := p2.UnmarshalBinary(zzRefBody(abs))
+		zzReach("reuse")
+		zzEmitU("err", zzB2U(err != nil))
+		zzViewEq(zzSnap(p1), s1, "decoding into a packet changes another packet that shared a slice with it")
+		c1 := NewConnect()
+		c1.SetAuthData(zzBytes("ad", l))
+		c1.SetPassword(zzBytes("pw", l))
+		sc := zzSnap(c1)
+		c2 := NewConnect()
+		c2.SetAuthData(c1.AuthData())
+		c2.SetPassword(c1.Password())
+		absC := zzGen2(zzShape{typ: 1, slen: l, mask: 1 << 2, cred: 2, nz: 2}, "C.")
+		_ = c2.UnmarshalBinary(zzRefBody(absC))
+		zzViewEq(zzSnap(c1), sc, "decoding into a packet changes another packet that shared a slice with it")
+	case 2:
+		absA := zzGen2(zzShape{typ: 1, slen: l, will: 1 | 63<<1, nUser: 1, nz: 2}, "A.")
+		absB := zzGen2(zzShape{typ: 1, slen: l, will: 1 | 63<<1, nUser: 1, nz: 2}, "B.")
+		q := &Connect{}
+		if q.UnmarshalBinary(zzRefBody(absA)) != nil {
+			return
+		}
+		w := q.Will()
+		if w == nil {
+			return
+		}
+		sw := zzSnap(w)
+		err := q.UnmarshalBinary(zzRefBody(absB))
+		zzReach("reuse")
+		zzEmitU("err", zzB2U(err != nil))
+		zzViewEq(zzSnap(w), sw, "decoding again into a Connect changes the will message obtained earlier")
+	}
+}
+
+// ZZ_C14_after: a PUBLISH (with subscription identifiers and user property)
+// is decoded and snapshotted; then a[1] arbitrary bytes are decoded as packet
+// type a[0]; the PUBLISH must be unchanged whatever those bytes are.
+func ZZ_C14_after(a []int) {
+	abs := zzGen2(zzShape{typ: 3, slen: 1, nList: 1, nUser: 1, qos: 1, nz: 2}, "P.")
+	q1, err := ReadPacket(&zzContig{b: zzRefEncode(abs)})
+	if err != nil {
+		return
+	}
+	s1 := zzSnap(q1)
+	p := zzNew(a[0])
+	e2 := p.UnmarshalBinary(zzBytes("b", a[1]))
+	zzReach("after")
+	zzEmitU("err", zzB2U(e2 != nil))
+	zzViewEq(zzSnap(q1), s1, "decoding a later frame changes a packet decoded earlier")
+	zzAssert(zzGlobalWrites() == 0, "monitor: package-level state is written while decoding")
+}
